@@ -8,7 +8,12 @@ mod report;
 mod rng;
 mod util;
 
+mod c10;
 mod c19;
+mod gen;
+mod htmlk;
+mod opts;
+mod ser;
 
 use report::Report;
 
@@ -53,6 +58,7 @@ fn main() {
             let mut rep = Report::new(&id);
             match id.as_str() {
                 "C19" => c19::run(&cfg, &mut rep),
+                "C10" => c10::run(&cfg, &mut rep),
                 _ => {
                     eprintln!("unknown property {}", id);
                     std::process::exit(2);
@@ -70,6 +76,7 @@ fn main() {
             let input = args.get(4).map(|s| s.as_str()).unwrap_or("");
             let r = match id {
                 "C19" => c19::replay(kind, input),
+                "C10" => c10::replay(kind, input),
                 _ => Err(format!("unknown property {}", id)),
             };
             match r {
